@@ -25,7 +25,7 @@ func init() {
 		Level: "model_checking",
 		Rule: "history tree over a live pool (int, float, str, two arrays, nested array, object, bear child, map with scalar and non-scalar keys, range, function, Either value, error wrapper): " +
 			"depth 1 = every property reachable along the prototype chain of every pool value (discovered at run time) x {no argument, each of 10 arguments, 4 argument pairs, trailing function}, every infix operator over all ordered pool pairs, slices, unpacking, chains with chain argument; " +
-			"depth 2 (thorough 3) = all sequences over the container-producing core (~45 templates) whose operands range over the pool and over earlier results; after every operation the deep fingerprint (Go pointer identity of elements/pairs/keys/bounds, payload, prototype) and Repr of every earlier value and the key lists of the built-in prototypes must be unchanged; " +
+			"depth 2 (thorough 3) = all sequences over the container-producing core (~45 templates) whose operands range over the pool and over earlier results; incl. 8 operations whose callee keeps the argument array / [acc, elem] pair it was given (result compared with what each held when created; a value that contains itself is a violation); after every operation the deep fingerprint (Go pointer identity of elements/pairs/keys/bounds, payload, prototype) and Repr of every earlier value and the key lists of the built-in prototypes must be unchanged; " +
 			"states = histories, transitions = operations executed; non-trivial = operation that returned a value (not an error); distinct = distinct history",
 		Assumptions: []string{
 			"function environments and iterator state are excluded from the fingerprint (the statement allows them to change)",
@@ -50,6 +50,7 @@ nested := [a, o, [7, 8]]
 e := 1.try
 ew := 1.try./(0).err
 kf := {|a: 0, b: 0| [a, b, \_]}
+kp := {|pair| pair}
 d3 := a5[0:3]
 dk := {x: 1, y: 2, z: 3}.keys
 dv := {x: 1, y: 2, z: 3}.values
@@ -226,14 +227,17 @@ func (h *hrunner) parse(src string) *ast.Program {
 	return p
 }
 
+const cyclicRepr = panrun.CyclicRepr
+
 type snapshot struct {
 	fps   map[string]string
 	reprs map[string]string
+	vals  map[string]object.PanObject
 	proto string
 }
 
 func takeSnapshot(env *object.Env) snapshot {
-	s := snapshot{fps: map[string]string{}, reprs: map[string]string{}, proto: protoPrint()}
+	s := snapshot{fps: map[string]string{}, reprs: map[string]string{}, vals: map[string]object.PanObject{}, proto: protoPrint()}
 	for k, v := range env.Store {
 		name, _ := object.SymHash2Str(k)
 		key := fmt.Sprint(k)
@@ -244,12 +248,16 @@ func takeSnapshot(env *object.Env) snapshot {
 			continue
 		}
 		s.fps[key] = fingerprint(v)
+		s.vals[key] = v
 		s.reprs[key] = safeRepr(v)
 	}
 	return s
 }
 
 func safeRepr(v object.PanObject) (r string) {
+	if panrun.Cyclic(v) {
+		return cyclicRepr
+	}
 	defer func() {
 		if p := recover(); p != nil {
 			r = fmt.Sprintf("<Repr panicked: %v>", p)
@@ -291,6 +299,23 @@ func (h *hrunner) runHistory(t tcase) {
 		}
 		after := takeSnapshot(env)
 		c.Validated(1)
+		for name, rp := range after.reprs {
+			if rp == cyclicRepr && before.reprs[name] != cyclicRepr {
+				c.Violation(core.Violation{Key: "value-contains-itself/" + opShape(opSrc), Case: core.JSON(t), Desc: strings.Join(t.Ops[:i+1], "; ") + "  => " + name + " contains itself",
+					Expected: "a finite value (containers are built from values that existed before them)", Observed: name + " is reachable from itself: a value was changed after its creation",
+					Repro: preludeSrc + strings.Join(t.Ops[:i+1], "\n") + "\n" + name + "[0][1].p\n"})
+				return
+			}
+		}
+		if want, ok := retained(opSrc, before.vals); ok && res.Kind == "value" {
+			c.Counter("retention_oracle_checked", 1)
+			if got := safeRepr(res.Val); got != want {
+				c.Violation(core.Violation{Key: "retained-argument-changed/" + opShape(opSrc), Case: core.JSON(t), Desc: strings.Join(t.Ops[:i+1], "; "),
+					Expected: want + " (every argument array / pair the callee kept still holds what it was created with)", Observed: got,
+					Repro: preludeSrc + strings.Join(t.Ops[:i+1], "\n") + "\n" + strings.SplitN(opSrc, " :=", 2)[0] + ".p\n"})
+				return
+			}
+		}
 		for name, f := range before.fps {
 			// the operation's own target variable may be (re)assigned: variables may change, values may not
 			if strings.HasPrefix(opSrc, name+" :=") {
@@ -355,6 +380,71 @@ func keyOf(opSrc, changed string, t tcase) string {
 		kind = "earlier-result"
 	}
 	return "mutates-" + kind + "/" + opShape(opSrc)
+}
+
+// ---------------------------------------------------------------- callees that keep their arguments
+
+// retention templates: the callee returns (keeps) the argument array / the [acc, elem] pair it was called
+// with, so the result shows at the end what every one of them held when it was created.
+var retentionOps = []struct {
+	suffix string
+	want   func(elems []string) string
+}{
+	{"@{\\0}", wrapEach("[%s]")},
+	{".map {\\0}", wrapEach("[%s]")},
+	{"@{|v| [\\0, \\_]}", wrapEach("[[%s], {}]")},
+	{"$(nil){|pair| pair}", foldPairs("nil", "[%s, %s]")},
+	{"$(nil){|acc, v| \\0}", foldPairs("nil", "[%s, %s]")},
+	{"$(nil){\\0}", foldPairs("nil", "[[%s, %s]]")},
+	{"$(nil)^kp", foldPairs("nil", "[%s, %s]")},
+	{".reduce({|pair| pair}, init: 0)", foldPairs("0", "[%s, %s]")},
+}
+
+func wrapEach(f string) func([]string) string {
+	return func(es []string) string {
+		out := make([]string, len(es))
+		for i, e := range es {
+			out[i] = fmt.Sprintf(f, e)
+		}
+		return "[" + strings.Join(out, ", ") + "]"
+	}
+}
+
+func foldPairs(init, f string) func([]string) string {
+	return func(es []string) string {
+		acc := init
+		for _, e := range es {
+			acc = fmt.Sprintf(f, acc, e)
+		}
+		return acc
+	}
+}
+
+// retained returns the expected Repr of a retention operation whose receiver is an array variable.
+func retained(opSrc string, vals map[string]object.PanObject) (string, bool) {
+	i := strings.Index(opSrc, ":= ")
+	if i < 0 {
+		return "", false
+	}
+	e := opSrc[i+3:]
+	for _, r := range retentionOps {
+		if !strings.HasSuffix(e, r.suffix) {
+			continue
+		}
+		arr, ok := vals[strings.TrimSuffix(e, r.suffix)].(*object.PanArr)
+		if !ok || arr.Proto() != object.BuiltInArrObj {
+			return "", false
+		}
+		es := make([]string, len(arr.Elems))
+		for k, el := range arr.Elems {
+			if el.Type() == object.NilType && !strings.Contains(r.suffix, "$") {
+				return "", false // list chains drop nil results: not modelled here
+			}
+			es[k] = safeRepr(el)
+		}
+		return r.want(es), true
+	}
+	return "", false
 }
 
 // ---------------------------------------------------------------- operation alphabets
@@ -494,6 +584,9 @@ func coreOps(target string, vars []string) []string {
 		add(x + ".chunk(2)")
 		add(x + ".bear")
 		add("Arr.new(" + x + ")")
+		for _, r := range retentionOps {
+			add(x + r.suffix)
+		}
 		for _, y := range arrs {
 			add(x + " + " + y)
 			add(x + "$(" + y + "){|acc, v| acc + [v]}")
